@@ -3,7 +3,7 @@ import ScnVerif.Model.Cylinder
 import ScnVerif.Gen.Quadratures
 /-! driver ops for C18 (all numbers are f64 bit patterns in hex unless noted):
 * `c18.table <disk12|disk55|disk256_cheb>` → `den n x0 y0 w0 x1 …` (decimal integers, generated table)
-* `c18.beam a(3) base(3) r h start(3) n(3)` → length (or `inf`)
+* `c18.beam a(3) base(3) r h start(3) n(3)` → length (or `inf`); `c18.beamold`: the same with the pre-fix formula
 * `c18.selectk mult cap lo h r` → decimal k
 * `c18.cheb x1 w1 x2 w2 …` → re-weighted rule `x1 w1' …`
 * `c18.quad <kind> a(3) base(3) r h sr x1 w1 …` → `p.x p.y p.z w …` for every point
@@ -55,6 +55,11 @@ def handle : List String → Option String
       match ← floats? args with
       | [ax, ay, az, bx, b_y, bz, r, h, sx, sy, sz, nx, ny, nz] =>
           some (outLen (beamIntersection (v3 ax ay az) (v3 bx b_y bz) r h (v3 sx sy sz) (v3 nx ny nz)))
+      | _ => none
+  | "c18.beamold" :: args => do
+      match ← floats? args with
+      | [ax, ay, az, bx, b_y, bz, r, h, sx, sy, sz, nx, ny, nz] =>
+          some (outLen (beamIntersectionOld (v3 ax ay az) (v3 bx b_y bz) r h (v3 sx sy sz) (v3 nx ny nz)))
       | _ => none
   | "c18.selectk" :: args => do
       match ← floats? args with
